@@ -246,9 +246,9 @@ func genEqPair(t *rapid.T, optSets []string, withPrecision bool) PairCase {
 		a := gen.Doc(t, p)
 		if gen.Chance(t, "longNumbers", 8) {
 			// a long list of numbers, a few of them moved by less than eps
-			n := gen.Int(t, "nNumbers", 60, 150)
+			n := gen.Int(t, "nNumbers", 60, 150*gen.Scale())
 			if gen.Chance(t, "veryLong", 15) {
-				n = gen.Int(t, "nVeryLong", 1024, 1200)
+				n = gen.Int(t, "nVeryLong", 1024, 1200*gen.Scale())
 			}
 			l := make([]val.V, n)
 			for i := range l {
